@@ -87,6 +87,8 @@
 (declare-fun reMatches (String String) SLst)
 (declare-fun reSubst (String String SLst) String)
 (declare-fun strTrim (String String) String)
+(declare-fun strTrimRight (String String) String)   ; strings.TrimRight(s, cutset): NOT TrimSuffix
+(declare-fun strTrimLeft (String String) String)
 (declare-fun reSplit (String String Int) SLst)
 (declare-fun tomlParseF (String) Val)
 (declare-fun tomlParseE (String) ErrV)
